@@ -210,7 +210,12 @@ def rRetarget (orig : List RTok) (t : RTok) : Option RTok :=
     | none => none
     | some o => some { genLine := t.genLine, genCol := t.genCol, src := o.src, name := o.name }
 
-/-- model of `chain_source_maps` on resolved tokens -/
-def rChain (rw orig : List RTok) : List RTok := rw.filterMap (rRetarget orig)
+/-- the map writer does not repeat a token equal to the one just written -/
+def dedupConsecutive : List RTok → List RTok
+  | a :: b :: rest => if a == b then dedupConsecutive (b :: rest) else a :: dedupConsecutive (b :: rest)
+  | l => l
+
+/-- model of `chain_source_maps` on resolved tokens (and of the serialisation of the result) -/
+def rChain (rw orig : List RTok) : List RTok := dedupConsecutive (rw.filterMap (rRetarget orig))
 
 end IastModel
